@@ -90,3 +90,42 @@ func Harness_C05_waitcond_args() {
 	mu.Unlock()
 	verifAssert(err != nil && calls == 0, "cancelled_before_call_returns_error_without_predicate")
 }
+
+// C05 get_wakes: consumer.Get parked in the asynchronous path || {Put | cancel of the caller's context |
+// Buffer-side cancellation} at an arbitrary point: never stuck; a Get that errors consumes nothing.
+func verifC05GetWakes(event int) {
+	s := verifConcreteBuffer()
+	b := s.b
+	c, _, _ := s.verifAddConsumerAt(0, 0)
+	ctx, cancel := context.WithCancel(context.Background())
+	var v interface{}
+	var err error
+	returned := false
+	go func() {
+		v, err = c.Get(ctx)
+		returned = true
+	}()
+	go func() {
+		switch event {
+		case 0:
+			_ = b.Put(context.Background(), vtok(7))
+		case 1:
+			cancel()
+		default:
+			b.cancel()
+		}
+	}()
+	verifFinally(func() {
+		verifAssert(returned, "blocked_get_returns_after_the_event")
+		if event == 0 {
+			verifAssert(err == nil && v == vtok(7) && c.offset == 1, "get_returns_the_value_that_became_available")
+		} else {
+			verifAssert(err != nil && v == nil && c.offset == 0, "failed_get_consumes_nothing")
+		}
+		verifReach("quiescent")
+	})
+}
+
+func Harness_C05_get_wakes_put()    { verifC05GetWakes(0) }
+func Harness_C05_get_wakes_cancel() { verifC05GetWakes(1) }
+func Harness_C05_get_wakes_close()  { verifC05GetWakes(2) }
